@@ -57,25 +57,39 @@ Definition ex6_s : settings :=
 Definition ex6_otp : bool -> tpath := order_tp_of ex6_s.
 
 (** ** ex7: a definition of the [types_equal] completeness fragment:
-    [a::Pt<T> { x: T, ys: Vec<T>, p: (T, u8), o: Option<u32> }] at [u16] and at [bool] *)
+    [a::Pt<T> { x: T, ys: Vec<T>, p: (T, u8), o: Option<u32>, m: Option<T>, e: Result<T, u8>, g: Range<T> }]
+    at [u16] and at [bool] *)
 Definition ex7_defs : list sdef :=
   [mk_sdef ["a"; "Pt"] [("T", false)]
      (SBStruct [mk_sfield (Some "x") (SParam 0) false true;
                 mk_sfield (Some "ys") (SVec (SParam 0)) false true;
                 mk_sfield (Some "p") (STup [SParam 0; SPrimT PU8]) false true;
-                mk_sfield (Some "o") (SOpt (SPrimT PU32)) false true])].
+                mk_sfield (Some "o") (SOpt (SPrimT PU32)) false true;
+                mk_sfield (Some "m") (SOpt (SParam 0)) false true;
+                mk_sfield (Some "e") (SRes (SParam 0) (SPrimT PU8)) false true;
+                mk_sfield (Some "g") (SRange (SParam 0)) false true])].
 Definition ex7_sd : sdef := nth 0 ex7_defs pe_default.
-Definition ex7_pt (a v p : N) : ty :=
+Definition ex7_pt (a v p m e g : N) : ty :=
   mk_ty ["a"; "Pt"] [mk_tparam "T" (Some a)]
-        (TDComposite [pe_fld "x" a "T"; pe_fld "ys" v "Vec<T>"; pe_fld "p" p "(T, u8)"; pe_fld "o" 5 "Option<u32>"]) [].
+        (TDComposite [pe_fld "x" a "T"; pe_fld "ys" v "Vec<T>"; pe_fld "p" p "(T, u8)"; pe_fld "o" 5 "Option<u32>";
+                      pe_fld "m" m "Option<T>"; pe_fld "e" e "Result<T, u8>"; pe_fld "g" g "Range<T>"]) [].
+Definition ex7_res (a b : N) : ty :=
+  mk_ty ["Result"] [mk_tparam "T" (Some a); mk_tparam "E" (Some b)]
+        (TDVariant [mk_variant "Ok" [plain_field a] 0 []; mk_variant "Err" [plain_field b] 1 []]) [].
+Definition ex7_range (a : N) : ty :=
+  mk_ty ["Range"] [mk_tparam "Idx" (Some a)]
+        (TDComposite [mk_field (Some "start") a (Some "Idx") []; mk_field (Some "end") a (Some "Idx") []]) [].
 Definition ex7_reg : registry :=
-  [(0, ex7_pt 1 2 3); (1, pe_prim PU16); (2, mk_ty [] [] (TDSequence 1) []); (3, mk_ty [] [] (TDTuple [1; 4]) []);
-   (4, pe_prim PU8); (5, ex6_opt 6); (6, pe_prim PU32);
-   (7, ex7_pt 8 9 10); (8, pe_prim PBool); (9, mk_ty [] [] (TDSequence 8) []); (10, mk_ty [] [] (TDTuple [8; 4]) [])].
+  [(0, ex7_pt 1 2 3 7 8 9); (1, pe_prim PU16); (2, mk_ty [] [] (TDSequence 1) []); (3, mk_ty [] [] (TDTuple [1; 4]) []);
+   (4, pe_prim PU8); (5, ex6_opt 6); (6, pe_prim PU32); (7, ex6_opt 1); (8, ex7_res 1 4); (9, ex7_range 1);
+   (10, ex7_pt 11 12 13 14 15 16); (11, pe_prim PBool); (12, mk_ty [] [] (TDSequence 11) []);
+   (13, mk_ty [] [] (TDTuple [11; 4]) []); (14, ex6_opt 11); (15, ex7_res 11 4); (16, ex7_range 11)].
 Definition ex7_labels : list (option src) :=
   [Some (SApp 0 [SPrimT PU16]); Some (SPrimT PU16); Some (SVec (SPrimT PU16)); Some (STup [SPrimT PU16; SPrimT PU8]);
-   Some (SPrimT PU8); Some (SOpt (SPrimT PU32)); Some (SPrimT PU32);
-   Some (SApp 0 [SPrimT PBool]); Some (SPrimT PBool); Some (SVec (SPrimT PBool)); Some (STup [SPrimT PBool; SPrimT PU8])].
+   Some (SPrimT PU8); Some (SOpt (SPrimT PU32)); Some (SPrimT PU32); Some (SOpt (SPrimT PU16));
+   Some (SRes (SPrimT PU16) (SPrimT PU8)); Some (SRange (SPrimT PU16));
+   Some (SApp 0 [SPrimT PBool]); Some (SPrimT PBool); Some (SVec (SPrimT PBool)); Some (STup [SPrimT PBool; SPrimT PU8]);
+   Some (SOpt (SPrimT PBool)); Some (SRes (SPrimT PBool) (SPrimT PU8)); Some (SRange (SPrimT PBool))].
 
 (** ** f19: [types_equal] is incomplete on instantiations that are coincidence-free in the sense
     of [instantiation_cf] (which looks at the source field types of ONE definition only):
